@@ -291,7 +291,8 @@ def _c19_jobs(tier):
     n = 15
     jobs = [("c19_window", ["--what", "sound", "--chain", 1])]
     for sh in range(n):
-        jobs.append(("c19_window", ["--what", "pic", "--fmt-shard", "%d/%d" % (sh, n), "--sizes", 2 if q else 3, "--chain", 1 if q else 2]))
+        jobs.append(("c19_window", ["--what", "pic", "--fmt-shard", "%d/%d" % (sh, n), "--sizes", 2 if q else 3, "--hsizes", 3, "--chain", 2,
+                                    "--deep", 1 if q else 2, "--deadline", 75 if q else 840]))
     return jobs
 
 CHECKS["C19"] = {
@@ -301,7 +302,8 @@ CHECKS["C19"] = {
     "level_note": "Trusted: the geometry model (origin + line*stride + column*macropixel size) and the counting allocator. Outside: pictures larger than 3 granules, resize chains longer than 2.",
     "jobs": {"quick": _c19_jobs("quick"), "thorough": _c19_jobs("thorough")},
     "rule": "state = one (format, size, manager configuration[, resize chain]) buffer; transition = one window / resize request; non-trivial = buffers reached through a resize",
-    "bounds": {"quick": "all formats, sizes 1-2 granules, resize chains of length 1", "thorough": "sizes 1-3 granules, resize chains of length 2"},
+    "bounds": {"quick": "all formats, widths 1-3 granules x heights 1-2 granules, every resize followed by the full window sweep; chains of two resizes (acceptance and geometry of the second) on one-granule pictures with margins on all sides and no alignment",
+               "thorough": "sizes 1-3 granules; chains of two resizes for every margin setting without alignment, pictures of <= 2 granules"},
     "assumptions": DEFAULT_ASSUME,
 }
 
